@@ -3,7 +3,7 @@ import gc
 import sys
 import warnings
 import usim
-from .kernel import Ctx, CURRENT, Runaway, install, HarnessError
+from .kernel import Ctx, CURRENT, Runaway, install, HarnessError, ExecTimer
 from .dsl import Interp
 
 warnings.simplefilter('ignore')
@@ -44,7 +44,8 @@ def run_one(program, faults=(), observe=None, limits=None):
         kw = {}
         if program.get('till') is not None:
             kw['till'] = interp.T(program['till'])
-        usim.run(*roots, start=program.get('start', 0), **kw)
+        with ExecTimer():
+            usim.run(*roots, start=program.get('start', 0), **kw)
     except Runaway as r:
         ctx.runaway = r
         ctx.findings.append((r.kind, r.detail))
